@@ -14,13 +14,14 @@ C12 — Included files are isolated and spliced verbatim; imports are textual.
 * labels defined after a directive account for the full length of the inserted
   bytes: raw items take part in the prefix sums of `Props/C01.lean`
   (`positionsPass` adds `bytes.length`).
-Partial: "pasting the text" is stated at the level of items; the text-level
-paste lemma (a statement about the pest grammar) is exercised by the
-correspondence run on generated directory trees, not proved.
+* `C12_import_is_paste` / `C12_include_is_scope`: the TEXT-level statements for the whole-language family (files
+  whose statements are complete — for a file that ends inside an unterminated `%macro` pasting and importing differ,
+  and the import is a parse error).
 -/
 import EtkVerif.Asm.IngestLemmas
 import EtkVerif.Asm.HexInclude
 import EtkVerif.Asm.FullTextPest
+import EtkVerif.Asm.FullTextPaste
 namespace EtkVerif.C12
 open Asm
 
@@ -106,5 +107,59 @@ theorem C12_relative_paths (fs : FS) (cwd : PathC) (fuel : Nat) (prog : Program)
 example (prog : Program) : baseDir prog = (match prog.sources.getLast? with
     | some last => (last.parent).getD ⟨false, []⟩
     | none => ⟨false, []⟩) := rfl
+
+open Asm.Layout Asm.FullText in
+/-- "`%import("f")` is equivalent to pasting f's text at that point" — for TEXT of the whole-language family: a source
+with statements `A`, then `%import("f")` (any layout, escaped path), then `B`, where f (resolved against the directory
+of the importing file, inside the root) holds the text of the program `F` — A, B, F free of file directives — is
+preprocessed to exactly the raw ops of the text in which F's statements stand in place of the directive (`hP`: any
+layout of `A ++ F ++ B` in the family); importing adds the containment check and the read of f to the trace, the pasted
+text touches no file.  Equal raw ops, hence equal bytes or equal failure of the assembler. -/
+theorem C12_import_is_paste (fs : FS) (cwd : PathC) (prog : Program) (tr : List Event)
+    (head headF headP : List BlankLine) (A B F : List FullText.Item) (lead g1 g2 g3 : List Nat) (path : List PChar)
+    (term : Layout.Term)
+    (hW : FullText.WF head (A ++ [⟨lead, .directive .import_ g1 g2 path g3, term⟩] ++ B)) (hF : FullText.WF headF F)
+    (hP : FullText.WF headP (A ++ F ++ B))
+    (opsA opsB opsF : List AOp)
+    (hA : A.mapM (fun x => x.stmt.aop?) = some opsA) (hB : B.mapM (fun x => x.stmt.aop?) = some opsB)
+    (hFo : F.mapM (fun x => x.stmt.aop?) = some opsF)
+    (hdepth : ¬ prog.sources.length > 255) (r : Root) (loc : List String)
+    (hroot : rootOf fs cwd prog (strOf (path.map PChar.value)) = .ok r)
+    (hcheck : r.check fs (cwd.join ((baseDir prog).join (PathC.ofString (strOf (path.map PChar.value))))) = .ok loc)
+    (hread : fs.readText loc = some (FullText.render headF F))
+    (fuel : Nat) (hf : A.length + B.length + F.length + 5 ≤ fuel) :
+    ∃ ops,
+      preprocess fs cwd fuel prog (FullText.render head (A ++ [⟨lead, .directive .import_ g1 g2 path g3, term⟩] ++ B)) tr =
+        .ok (ops, tr ++ [.check (cwd.join ((baseDir prog).join (PathC.ofString (strOf (path.map PChar.value))))) true]
+                     ++ [.read loc]) ∧
+      preprocess fs cwd fuel prog (FullText.render headP (A ++ F ++ B)) tr = .ok (ops, tr) ∧
+      ops = (opsA ++ opsF ++ opsB).map RawOp.op :=
+  ⟨_, preprocess_import_paste fs cwd prog tr head headF A B F lead g1 g2 g3 path term hW hF opsA opsB opsF hA hB hFo
+        hdepth r loc hroot hcheck hread fuel hf,
+      preprocess_pasted fs cwd prog tr headP A B F hP opsA opsB opsF hA hB hFo fuel (by omega), rfl⟩
+
+open Asm.Layout Asm.FullText in
+/-- … whereas `%include("f")` hands the statements of f over as ONE nested scope (to which `C12_scope_standalone`
+applies: assembled on its own, from offset zero, with its own macro table) -/
+theorem C12_include_is_scope (fs : FS) (cwd : PathC) (prog : Program) (tr : List Event)
+    (head headF : List BlankLine) (A B F : List FullText.Item) (lead g1 g2 g3 : List Nat) (path : List PChar) (term : Layout.Term)
+    (hW : FullText.WF head (A ++ [⟨lead, .directive .include g1 g2 path g3, term⟩] ++ B)) (hF : FullText.WF headF F)
+    (opsA opsB opsF : List AOp)
+    (hA : A.mapM (fun x => x.stmt.aop?) = some opsA) (hB : B.mapM (fun x => x.stmt.aop?) = some opsB)
+    (hFo : F.mapM (fun x => x.stmt.aop?) = some opsF)
+    (hdepth : ¬ prog.sources.length > 255) (r : Root) (loc : List String)
+    (hroot : rootOf fs cwd prog (strOf (path.map PChar.value)) = .ok r)
+    (hcheck : r.check fs (cwd.join ((baseDir prog).join (PathC.ofString (strOf (path.map PChar.value))))) = .ok loc)
+    (hread : fs.readText loc = some (FullText.render headF F))
+    (fuel : Nat) (hf : A.length + B.length + F.length + 5 ≤ fuel) :
+    preprocess fs cwd fuel prog (FullText.render head (A ++ [⟨lead, .directive .include g1 g2 path g3, term⟩] ++ B)) tr =
+      .ok (opsA.map RawOp.op ++ [RawOp.scope (RawOps.ofList (opsF.map RawOp.op))] ++ opsB.map RawOp.op,
+           tr ++ [.check (cwd.join ((baseDir prog).join (PathC.ofString (strOf (path.map PChar.value))))) true] ++ [.read loc]) :=
+  preprocess_include_scope fs cwd prog tr head headF A B F lead g1 g2 g3 path term hW hF opsA opsB opsF hA hB hFo
+    hdepth r loc hroot hcheck hread fuel hf
+
+/-- the hypotheses of `C12_import_is_paste` are satisfiable: `/a.etk` = `stop⏎%import("b.etk")⏎pc`, `/b.etk` =
+`jumpdest⏎` in a concrete file tree yield the ops `stop, jumpdest, pc` -/
+example := @FullText.PasteExample.import_example
 
 end EtkVerif.C12
